@@ -36,7 +36,10 @@ def one(a):
         if rc != 0:
             return name, {'status': 'worktree failed'}
         env = dict(os.environ, PYTHONDONTWRITEBYTECODE='1', PYTHONHASHSEED='0')
-        eq = os.path.join(d, 'equiv.py')
+        # the probe runs as a file of the tree itself, so `import pgpy` finds the tree's package whichever way the probe sets its path up
+        eq = os.path.join(wt, 'equiv_probe_.py')
+        shutil.copy(os.path.join(d, 'equiv.py'), eq)
+        env['PYTHONPATH'] = wt
         rc0, o0 = sh('/venv/bin/python %s 2>/dev/null' % eq, cwd=wt, timeout=1200, env=env)
         rc, out = sh('git apply %s' % os.path.join(d, 'patch.diff'), cwd=wt)
         if rc != 0:
@@ -68,7 +71,7 @@ def main():
     a = ap.parse_args()
     todo = []
     for name in sorted(os.listdir(os.path.join(VERIF, 'twins'))):
-        if not re.match(r'^C\d\d-ref\d+$', name) or (a.only and name[:3] not in a.only.split(',')):
+        if not re.match(r'^C\d\d-ref\d+$', name) or (a.only and name[:3] not in a.only.split(',') and name not in a.only.split(',')):
             continue
         mp = os.path.join(VERIF, 'twins', name, 'meta.json')
         if not a.redo and os.path.exists(mp):
